@@ -125,10 +125,10 @@ def generate(tier):
     text, funcs = HEADER, []
     flagsets = {'ALL': 'Simplification.ALL', 'INT': 'Simplification.IntegerArithmetic',
                 'COEF': 'Simplification.CollectCoefficients | Simplification.IntegerArithmetic'}
-    k2s = [-2, 1, 3] if tier == 'quick' else [-4, -3, -2, -1, 1, 2, 3, 4, 6]
+    k2s = [-2, 1, 3]
     for name, (tree, pre, _) in TEMPLATES.items():
         for fn, fl in flagsets.items():
-            if tier == 'quick' and fn != 'ALL' and not (fn == 'COEF' and name.startswith('coeff')):
+            if fn != 'ALL' and not (fn == 'COEF' and name.startswith('coeff')) and not (fn == 'INT' and name.startswith(('sum', 'mul', 'div'))):
                 continue
             for k2 in k2s:
                 if name == 'pow_lit' and k2 < 0:
